@@ -13,7 +13,7 @@ evaluates the TLA+ predicate itself.  Minkowski: TLC enumerates lattice solids A
 convex or not) and structuring solids B containing the origin (boxes and L-shapes), checks the
 algebra of the statement's inclusions on cells (Lattice.tla) and prints them; the driver runs both
 operand orders and classifies cell centres and mesh vertices with the independent winding oracle."""
-import json, os, random
+import json, os, random, time
 import vf, progfam
 
 HULL_KINDS = {'hull-status', 'hull-empty', 'hull-manifold', 'hull-vertex', 'hull-contain', 'hull-convex',
@@ -181,6 +181,7 @@ def main(tier):
     cases, r = progfam.generate('Hull3_HullThorough.cfg' if thorough else 'Hull3_HullQuick.cfg',
                                 module='Hull3', workers=14, timeout=3000)
     states, transitions = r.distinct, r.generated
+    vf.log('[C16] %d hull cases generated and model-checked by TLC (%.0fs)' % (len(cases), time.time() - chk.t0))
     dims = {}
     for b in cases:
         c = json.loads(b)
@@ -188,17 +189,21 @@ def main(tier):
     total = nontriv = 0
     res0 = None
     for perm in ([0, 1, 2, 3, 4, 5] if thorough else [0, 1, 2]):
-        res = run(chk, cases, ['--perm=%d' % perm] + (['--mesh'] if perm == 0 else []), 'hull%d' % perm, HULL_KINDS)
+        res = run(chk, cases, ['--perm=%d' % perm] + (['--mesh'] if perm == 0 else []), 'hull%d' % perm, HULL_KINDS,
+                  timeout=3000 if thorough else 300)
         total += len(res)
         nontriv += sum(1 for x in res.values() if x.get('nontrivial'))
         if perm == 0:
             res0 = res
+    vf.log('[C16] hull replays done (%.0fs)' % (time.time() - chk.t0))
     nt, rejected, rt = trace_validate(chk, cases, res0, 600 if thorough else 160, rnd)
     states += rt.distinct; transitions += rt.generated
+    vf.log('[C16] %d implementation meshes validated by TLC, %d rejected (%.0fs)' % (nt, rejected, time.time() - chk.t0))
     # ---------------- Minkowski --------------------------------------------------------
     mcases, rm = progfam.generate('Hull3_MinkThorough.cfg' if thorough else 'Hull3_MinkQuick.cfg',
                                   module='Hull3', workers=14, timeout=3000)
     states += rm.distinct; transitions += rm.generated
+    vf.log('[C16] %d Minkowski pairs generated (%.0fs)' % (len(mcases), time.time() - chk.t0))
     # the non-convex x non-convex branch is the "very slow" one (faces x faces hulls, seconds per case
     # under ASan): a few of those; the rest stratified by structuring solid
     groups, heavy = {}, []
@@ -217,9 +222,10 @@ def main(tier):
                 light.append(groups[key][n])
     rnd.shuffle(heavy)
     heavy.sort(key=lambda b: json.loads(b)['bname'] != 'Lflat')     # the flat L has fewer faces: cheaper
-    nl, nh = (len(light), 80) if thorough else (280, 8)
-    mres = run(chk, light[:nl], [], 'mink', MINK_KINDS, jobs=14, timeout=3000, chunk=10)
-    hres = run(chk, heavy[:nh], [], 'minkH', MINK_KINDS, jobs=14, timeout=3000, chunk=1)
+    nl, nh = (len(light), 80) if thorough else (150, 4)
+    mres = run(chk, light[:nl], [], 'mink', MINK_KINDS, jobs=14, timeout=3000 if thorough else 600, chunk=10)
+    vf.log('[C16] light Minkowski pairs done (%.0fs)' % (time.time() - chk.t0))
+    hres = run(chk, heavy[:nh], [], 'minkH', MINK_KINDS, jobs=14, timeout=3000 if thorough else 900, chunk=1)
     msel = light[:nl] + heavy[:nh]
     mres = dict(mres)
     for i, x in hres.items():
